@@ -283,6 +283,70 @@ def parse_functions(rs_text):
 
 
 # ---------------------------------------------------------------------------------------------------------------
+# steering away from the open known findings D1..D4 (one root cause: `GetElement` yields a pointer and several lowering
+# paths of rustgen use the pointer word itself): a bare tuple projection as the value of an `if` arm, as the input of
+# `mem`/`delay`, or as the time operand of `delay`.  The generated programs get `proj + 0.0` there.
+
+def _wrap(n):
+    return coregen.Node("bin", "add", n, coregen.Node("lit", "0.0")) if n.kind == "proj" else n
+
+
+def _wrap_tail(n):
+    if n.kind in ("let", "lett", "set"):
+        return coregen.Node(n.kind, *(list(n.a[:-1]) + [_wrap_tail(n.a[-1])]))
+    if n.kind == "if":
+        return n            # its arms are handled where the `if` node itself is visited
+    return _wrap(n)
+
+
+def steer_node(n):
+    for key, ch in coregen.children(n):
+        n = coregen.replace_child(n, key, steer_node(ch))
+    if n.kind == "mem":
+        return coregen.Node("mem", _wrap(n.a[0]), n.a[1])
+    if n.kind == "delay":
+        return coregen.Node("delay", n.a[0], _wrap(n.a[1]), _wrap(n.a[2]), n.a[3])
+    if n.kind == "if":
+        return coregen.Node("if", n.a[0], _wrap_tail(n.a[1]), _wrap_tail(n.a[2]))
+    return n
+
+
+def in_known_class(n):
+    """the class predicate of D1..D4 on a generated AST node (what `steer_node` removes)"""
+    if n.kind == "mem" and n.a[0].kind == "proj":
+        return True
+    if n.kind == "delay" and (n.a[1].kind == "proj" or n.a[2].kind == "proj"):
+        return True
+    if n.kind == "if":
+        for arm in (n.a[1], n.a[2]):
+            t = arm
+            while t.kind in ("let", "lett", "set"):
+                t = t.a[-1]
+            if t.kind == "proj":
+                return True
+    return any(in_known_class(ch) for _, ch in coregen.children(n))
+
+
+def prog_in_known_class(p):
+    return any(in_known_class(f.body) for f in p.fns + [p.dsp]) or any(in_known_class(e) for _, e in p.globals)
+
+
+def steer_prog(p):
+    def fn(f):
+        return coregen.Fn(f.name, f.params, f.ptypes, f.ret, steer_node(f.body), f.uses_self, f.stateful)
+    return coregen.Prog([(x, steer_node(e)) for x, e in p.globals], [fn(f) for f in p.fns], fn(p.dsp))
+
+
+def steer_cases(cases, stats):
+    for c in cases:
+        if "prog" in c and prog_in_known_class(c["prog"]):
+            c["prog"] = steer_prog(c["prog"])
+            c["src"], c["sx"] = c["prog"].src(), c["prog"].sx()
+            stats["steered_away_from_D1_D4"] += 1
+    return cases
+
+
+# ---------------------------------------------------------------------------------------------------------------
 # (c) translation validation
 
 def canon_word(h):
@@ -420,10 +484,11 @@ def main(ctx, args):
                 c = json.load(open(os.path.join(cdir, fn)))
                 cases.append({"id": "corpus:" + fn[:-5], "src": c["src"], "sx": c.get("sx"), "inputs": c.get("inputs", []), "times": c.get("times", 8),
                               "expect": c.get("expect")})
-        plan = [("scalar", 10), ("core", 14)] if ctx.tier == "quick" else [("scalar", 120), ("core", 200), ("deep", 60), ("closure_assign", 20)]
+        plan = ([("scalar", 60), ("core", 100), ("deep", 30)] if ctx.tier == "quick" else
+                [("scalar", 500), ("core", 900), ("deep", 300), ("closure_assign", 100), ("nolam", 100), ("notup", 100)])
         for prof, n in plan:
             cs, st = pc.gen_cases(ctx.seed, n, prof, times)
-            cases += cs
+            cases += steer_cases(cs, stats)
     for k in known:
         if "src" in k:
             cases.append({"id": "known:" + k["id"], "src": k["src"], "sx": k.get("sx"), "inputs": k.get("inputs", []), "times": k.get("times", 8), "known": k})
@@ -508,13 +573,21 @@ def main(ctx, args):
         if "prog" in c and not mutate:
             kind = why.split(":")[0][:40]
 
-            def still(src, sx, inputs):
-                cc = {"id": "s", "src": src, "sx": sx, "inputs": inputs, "times": c["times"]}
-                oo = run_cases([cc], "shrink")["s"]
-                vv = judge(oo, None)
-                return vv is not None and vv[0] == "violation" and vv[1].split(":")[0][:40] == kind
-            rep["shrunk"] = pc.shrink_case(c, still, budget=60)
-            rep["src"], rep["sx"] = rep["shrunk"]["src"], rep["shrunk"]["sx"]
+            def still(q):
+                if prog_in_known_class(q):          # do not slide into the listed findings while shrinking
+                    return False
+                try:
+                    cc = {"id": "s", "src": q.src(), "sx": q.sx(), "inputs": c["inputs"], "times": c["times"]}
+                    vv = judge(run_cases([cc], "shrink")["s"], None)
+                    return vv is not None and vv[0] == "violation" and vv[1].split(":")[0][:40] == kind
+                except Exception:
+                    return False
+            try:
+                q = coregen.shrink(c["prog"], still, 60)
+                rep["shrunk"] = {"src": q.src(), "sx": q.sx()}
+                rep["src"], rep["sx"] = q.src(), q.sx()
+            except Exception as e:
+                rep["shrink_error"] = str(e)
         ctx.violation(f"{why} — {len(failures)} programs; smallest:\n{rep['src']}", rep)
     if enc_bad and not failures:
         enc_bad.sort(key=lambda d: len(d["src"]))
@@ -527,7 +600,7 @@ def main(ctx, args):
     ctx.coverage.update({
         "evaluations": stats["evaluations"],
         "distinct_nontrivial": len(nontriv),
-        "rule": "corpus of hand-written feature programs + type-directed random core programs (profiles scalar/core; thorough adds deep/closure_assign) -> real emit_rust -> rustc opt-level 0 -> run for %d samples; every output word bitwise against the VM (and the Lean reference evaluator); "
+        "rule": "corpus of hand-written feature programs + type-directed random core programs (profiles scalar/core/deep; thorough adds closure_assign; bare projections in the operand positions of the known findings D1-D4 rewritten to `proj + 0.0`) -> real emit_rust -> rustc opt-level 0 -> run for %d samples; every output word bitwise against the VM (and the Lean reference evaluator); "
                 "non-trivial = emitted, built, equal to the VM and output not constant; distinct = distinct source text" % times,
         "samples": samples or [{"note": "no agreeing non-trivial sample"}],
         "traces_validated_against_impl": stats["scaffold_traces"],
@@ -538,6 +611,7 @@ def main(ctx, args):
         "refused_but_vm_runs_count": len(refused),
         "skipped_no_reference": dict(skipped),
         "violations_found": len(failures),
+        "steered_away_from_D1_D4": stats["steered_away_from_D1_D4"],
         "dispatch_loop": {"functions_checked": stats["functions_checked"], "functions_with_loop": stats["functions_with_loop"], "encoding_mismatches": len(enc_bad)},
         "scaffold": {k: v for k, v in stats.items() if k.startswith("scaffold_")},
         "rustc_s_mean": round(sum(rustc_times) / len(rustc_times), 2) if rustc_times else None,
